@@ -372,6 +372,9 @@ func Doc(r *prng.Rand, o Opts, maxTop int) []*model.Value {
 	return out
 }
 
+// LooksLikeIVM reports whether s has the shape $ion_<digits>_<digits>.
+func LooksLikeIVM(s string) bool { return looksLikeIVM(s) }
+
 func looksLikeIVM(s string) bool {
 	// $ion_<digits>_<digits>
 	if !strings.HasPrefix(s, "$ion_") {
